@@ -259,7 +259,7 @@ def run_one(src, flags=None, timeout=60, cmd="CASE"):
 # the real binary
 
 def run_binary(args, stdin_data=b"", release=False, timeout=30, env=None, cwd=None, step_budget=None,
-               preexec_fn=None, stdin_file=None, stdout_file=None):
+               preexec_fn=None, stdin_file=None, stdout_file=None, stderr_file=None):
     """Run the real p2sh binary. Returns dict(rc, out, err, timeout)."""
     exe = P2SH_REL if release else P2SH_DEV
     e = dict(env or os.environ)
@@ -271,7 +271,7 @@ def run_binary(args, stdin_data=b"", release=False, timeout=30, env=None, cwd=No
         p = subprocess.Popen([exe] + list(args),
                              stdin=(stdin_file if stdin_file is not None else subprocess.PIPE),
                              stdout=(stdout_file if stdout_file is not None else subprocess.PIPE),
-                             stderr=subprocess.PIPE, env=e, cwd=(cwd or run_cwd()), preexec_fn=preexec_fn)
+                             stderr=(stderr_file if stderr_file is not None else subprocess.PIPE), env=e, cwd=(cwd or run_cwd()), preexec_fn=preexec_fn)
     except OSError as ex:
         return {"rc": None, "out": b"", "err": str(ex).encode(), "timeout": False, "spawn_error": True}
     try:
@@ -281,6 +281,86 @@ def run_binary(args, stdin_data=b"", release=False, timeout=30, env=None, cwd=No
         p.kill()
         out, err = p.communicate()
         return {"rc": None, "out": out or b"", "err": err or b"", "timeout": True}
+
+
+REPL_MARK = "\x1e"
+
+
+def repl_session(lines, release=False, timeout=60, stderr_path=None):
+    """Feed `lines` to the real REPL loop through the guarded scripted line source.
+    -> (list of stdout text per line, list of stderr text per line, raw result) ; None lists when the run failed"""
+    env = dict(os.environ, P2SH_VERIF_REPL_STDIN="1")
+    if stderr_path:
+        exe = P2SH_REL if release else P2SH_DEV
+        env["RUST_BACKTRACE"] = "0"
+        try:
+            with open(stderr_path, "wb") as ef:
+                p = subprocess.run([exe], input=("\n".join(lines) + "\n").encode("utf-8"), stdout=subprocess.PIPE, stderr=ef, env=env, cwd=run_cwd(), timeout=timeout)
+            rr = {"rc": p.returncode, "out": p.stdout or b"", "err": b"", "timeout": False}
+        except subprocess.TimeoutExpired:
+            rr = {"rc": None, "out": b"", "err": b"", "timeout": True}
+    else:
+        rr = run_binary([], stdin_data=("\n".join(lines) + "\n").encode("utf-8"), release=release, timeout=timeout, env=env)
+    if rr["timeout"] or crashed(rr):
+        return None, None, rr
+
+    def split(text):
+        segs = {}
+        for part in text.split(REPL_MARK)[1:]:
+            nl = part.find("\n")
+            try:
+                segs[int(part[:nl])] = part[nl + 1:]
+            except ValueError:
+                pass
+        return segs
+    o = split(rr["out"].decode("utf-8", "replace"))
+    e = split(rr["err"].decode("utf-8", "replace"))
+    outs = [o.get(i, "") for i in range(len(lines))]
+    if outs and outs[-1].endswith("\nExiting...\n"):
+        outs[-1] = outs[-1][:-len("\nExiting...\n")]
+    return outs, [e.get(i, "") for i in range(len(lines))], rr
+
+
+def isolation_after_errors(chk, label, cases, stderr_path=None):
+    """A statement that fails (runtime error or error object) must leave no trace in what later, unrelated statements do.
+    cases: (tag, setup lines, failing line(s), probe lines, files to compare after the session, factory of fresh paths or None).
+    Two REPL sessions are run, without and with the failing lines; the probe lines must print the same and the files must
+    hold the same bytes. Vehicle: the real REPL loop (the one place where a program goes on after a runtime error)."""
+    for k, (tag, setup, failing, probes, files) in enumerate(cases):
+        rel = (k % 2 == 1)
+        results = []
+        for with_error in (False, True):
+            for f in files:
+                try:
+                    os.unlink(f)
+                except OSError:
+                    pass
+            lines = list(setup) + (list(failing) if with_error else []) + list(probes)
+            outs, errs, rr = repl_session(lines, release=rel, stderr_path=stderr_path)
+            if outs is None:
+                results.append(("crash" if crashed(rr) else "timeout", rr))
+                continue
+            content = []
+            for f in files:
+                try:
+                    with open(f, "rb") as fh:
+                        content.append(fh.read())
+                except OSError:
+                    content.append(None)
+            results.append((outs[len(lines) - len(probes):], content))
+        chk.observed((label, "after-error", tag))
+        base, witherr = results
+        if base[0] in ("crash", "timeout") or witherr[0] in ("crash", "timeout"):
+            if witherr[0] == "crash" and base[0] not in ("crash", "timeout"):
+                chk.violation("%s|after-error|crash|%s" % (label, tag), "the session crashes after the failing statement %r: %s" % (
+                    failing, witherr[1]["err"][-200:]), {"setup": setup, "failing": failing, "probes": probes})
+            else:
+                chk.inconc("after-error session did not complete")
+            continue
+        if base != witherr:
+            what = "print %r instead of %r" % (witherr[0], base[0]) if base[0] != witherr[0] else "leave different bytes in the files they write"
+            chk.violation("%s|after-error|%s" % (label, tag), "after the failing statement(s) %r the later statements %r %s" % (failing, probes, what),
+                          {"setup": setup, "failing": failing, "probes": probes})
 
 
 def crashed(res):
